@@ -1395,11 +1395,12 @@ package apd
 //@ define fits(c: *Context, d: *Decimal): bool = d.Form == Finite ==> (val(d.Coeff) >= 0 && val(d.Coeff) < pow10(c.Precision) && d.Exponent + nd10(val(d.Coeff)) - 1 <= c.MaxExponent && (val(d.Coeff) != 0 ==> d.Exponent >= etiny(c)))
 
 //@ func (*Decimal).String
-//@   props C04 C06 C18
+//@   props C04 C06 C18 C14
 //@   exported
 //@   requires d != nil
 //@   pure
 //@   allocates
+//@   ensures [text] DecText(bytes(ret), 0, d.Form, d.Negative, val(d.Coeff), d.Exponent, 71)
 
 //@ func (*Decimal).Float64
 //@   trusted strconv.ParseFloat of the text form; the float result is never interpreted by the verifier
@@ -2204,6 +2205,8 @@ package apd
 //@ define SciText(s: []byte, p: int, C: int, E: int, ech: int): bool = s[p] == uf_dchar(C, 0) && ite(nd10(C) == 1, Etail(s, p + 1, ech, E + nd10(C) - 1), s[p + 1] == 46 && dseg(s, p + 2, C, 1, nd10(C) - 1) && Etail(s, p + nd10(C) + 1, ech, E + nd10(C) - 1))
 //@ define plainG(C: int, E: int): bool = (E <= 0 && E + nd10(C) - 1 >= -6) || (C == 0 && -2000 <= E && E <= -1)
 //@ define knownverb(f: int): bool = f == 101 || f == 69 || f == 102 || f == 103 || f == 71
+// DecText(s, n0, form, neg, C, E, f): from position n0 to its end, s is the text of the decimal (form, neg, C, E) under the verb f
+//@ define DecText(s: []byte, n0: int, form: int, neg: bool, C: int, E: int, f: int): bool = (neg && (form != Finite || knownverb(f)) ==> len(s) > n0 && s[n0] == 45) && (form == NaN ==> len(s) == n0 + ite(neg, 1, 0) + 3 && s[len(s) - 3] == 78 && s[len(s) - 2] == 97 && s[len(s) - 1] == 78) && (form == NaNSignaling ==> len(s) == n0 + ite(neg, 1, 0) + 4 && s[len(s) - 4] == 115 && s[len(s) - 3] == 78 && s[len(s) - 2] == 97 && s[len(s) - 1] == 78) && (form == Infinite ==> len(s) == n0 + ite(neg, 1, 0) + 8 && s[len(s) - 8] == 73 && s[len(s) - 7] == 110 && s[len(s) - 6] == 102 && s[len(s) - 5] == 105 && s[len(s) - 4] == 110 && s[len(s) - 3] == 105 && s[len(s) - 2] == 116 && s[len(s) - 1] == 121) && (form == Finite && C >= 0 && (f == 71 || f == 103) ==> ite(plainG(C, E), PlainText(s, n0 + ite(neg, 1, 0), C, E), SciText(s, n0 + ite(neg, 1, 0), C, E, f - 2))) && (form == Finite && C >= 0 && (f == 69 || f == 101) ==> SciText(s, n0 + ite(neg, 1, 0), C, E, f)) && (form == Finite && C >= 0 && f == 102 ==> PlainText(s, n0 + ite(neg, 1, 0), C, E)) && (form == Finite && !knownverb(f) ==> len(s) == n0 + 2 && s[n0] == 37 && s[n0 + 1] == f)
 //@ func (*Decimal).Append
 //@   props C04 C06 C18 C14
 //@   exported
@@ -2212,7 +2215,7 @@ package apd
 //@   allocates
 //@   ensures [extends] extends(ret, buf)
 //@   ensures [keep] same(ret, 0, old(buf), 0, len(buf))
-//@   ensures [sign] d.Negative && (d.Form != Finite || knownverb(fmtString)) ==> ret[len(buf)] == 45
+//@   ensures [sign] d.Negative && (d.Form != Finite || knownverb(fmtString)) ==> len(ret) > len(buf) && ret[len(buf)] == 45
 //@   ensures [nan] d.Form == NaN ==> len(ret) == len(buf) + ite(d.Negative, 1, 0) + 3 && ret[len(ret) - 3] == 78 && ret[len(ret) - 2] == 97 && ret[len(ret) - 1] == 78
 //@   ensures [snan] d.Form == NaNSignaling ==> len(ret) == len(buf) + ite(d.Negative, 1, 0) + 4 && ret[len(ret) - 4] == 115 && ret[len(ret) - 3] == 78 && ret[len(ret) - 2] == 97 && ret[len(ret) - 1] == 78
 //@   ensures [inf] d.Form == Infinite ==> len(ret) == len(buf) + ite(d.Negative, 1, 0) + 8 && ret[len(ret) - 8] == 73 && ret[len(ret) - 7] == 110 && ret[len(ret) - 6] == 102 && ret[len(ret) - 5] == 105 && ret[len(ret) - 4] == 110 && ret[len(ret) - 3] == 105 && ret[len(ret) - 2] == 116 && ret[len(ret) - 1] == 121
@@ -2277,52 +2280,70 @@ package apd
 //@   ensures [small] d.Exponent < 0 && -d.Exponent >= len(digits) ==> len(ret) == len(buf) + 2 - d.Exponent && ret[len(buf)] == 48 && ret[len(buf) + 1] == 46 && filled(ret, len(buf) + 2, -d.Exponent - len(digits), 48) && same(ret, len(buf) + 2 - d.Exponent - len(digits), old(digits), 0, len(digits))
 //@   ensures [point] d.Exponent < 0 && -d.Exponent < len(digits) ==> len(ret) == len(buf) + len(digits) + 1 && same(ret, len(buf), old(digits), 0, len(digits) + d.Exponent) && ret[len(buf) + len(digits) + d.Exponent] == 46 && same(ret, len(buf) + len(digits) + d.Exponent + 1, old(digits), len(digits) + d.Exponent, -d.Exponent)
 //@ func (*Decimal).Text
-//@   props C04 C06 C18
+//@   props C04 C06 C18 C14
 //@   exported
 //@   requires d != nil
 //@   pure
 //@   allocates
+//@   ensures [text] DecText(bytes(ret), 0, d.Form, d.Negative, val(d.Coeff), d.Exponent, format)
 // ---------------------------------------------------------------- byte-level conversions: no panic, well-formed results (the bytes themselves are C13)
 //@ func math/big.(*Int).FillBytes
-//@   trusted math/big (panics when the magnitude does not fit in buf)
+//@   trusted math/big (panics when the magnitude does not fit in buf; fills buf with the big-endian magnitude, zero-extended, and returns buf)
 //@   requires bitlen(abs(val(x))) <= 8 * len(buf)
+//@   assigns elems(buf)
+//@   ensures len(ret) == len(buf) && base(ret) == base(buf) && beval(ret) == abs(val(x))
 //@ func math/big.(*Int).Bytes
-//@   trusted math/big
+//@   trusted math/big (the big-endian magnitude, in a new array)
 //@   pure
 //@   allocates
+//@   ensures beval(ret) == abs(val(x))
 //@ func math/big.(*Int).SetBytes
 //@   trusted math/big (the bytes are a big-endian unsigned magnitude)
 //@   assigns *z
-//@   ensures val(z) >= 0 && ret == z && !negzero(z)
+//@   ensures val(z) == old(beval(buf)) && val(z) >= 0 && ret == z && !negzero(z)
 //@ func (*BigInt).FillBytes
 //@   layer bigint
-//@   props C16 C04
+//@   props C16 C04 C13
 //@   requires rep(z) && bitlen(abs(val(z))) <= 8 * len(buf)
+//@   assigns elems(buf)
+//@   ensures len(ret) == len(buf) && base(ret) == base(buf) && beval(ret) == abs(val(z))
 //@ func (*BigInt).Bytes
 //@   layer bigint
-//@   props C16 C04
+//@   props C16 C04 C13
 //@   requires rep(z)
 //@   pure
 //@   allocates
+//@   ensures beval(ret) == abs(val(z))
 //@ func (*BigInt).SetBytes
 //@   layer bigint
-//@   props C16 C04 C06
+//@   props C16 C04 C06 C13
 //@   requires writable(z) && rep(z)
 //@   assigns z
 //@   outs z
 //@   allocates
-//@   ensures val(z) >= 0 && ret == z && rep(z)
+//@   ensures val(z) == old(beval(buf)) && val(z) >= 0 && ret == z && rep(z)
+// Decompose/Compose (C13): the parts handed out denote the decimal, and Compose installs exactly the parts it is given;
+// beval(s) is the unsigned big-endian integer spelled by a byte slice (math/big's Bytes/FillBytes/SetBytes).
 //@ func (*Decimal).Decompose
-//@   props C04
+//@   props C04 C13 C06
 //@   exported
 //@   requires inv(d)
+//@   assigns cells(buf)
+//@   allocates
+//@   ensures [finite] d.Form == Finite ==> ret0 == 0 && ret1 == d.Negative && beval(ret2) == val(d.Coeff) && ret3 == d.Exponent
+//@   ensures [inf] d.Form == Infinite ==> ret0 == 1 && ret1 == d.Negative
+//@   ensures [nan] isnan(d) ==> ret0 == 2 && ret1 == d.Negative
 //@ func (*Decimal).Compose
-//@   props C04 C06
+//@   props C04 C06 C13
 //@   exported
 //@   requires writable(d)
 //@   assigns d
 //@   outs d when ret == nil
 //@   ensures [wf] ret == nil ==> inv(d)
+//@   ensures [err] ret == nil <==> (form == 0 || form == 1 || form == 2)
+//@   ensures [finite] form == 0 ==> d.Form == Finite && d.Negative == negative && val(d.Coeff) == old(beval(coefficient)) && d.Exponent == exponent
+//@   ensures [inf] form == 1 ==> d.Form == Infinite && d.Negative == negative && val(d.Coeff) == 0 && d.Exponent == 0
+//@   ensures [nan] form == 2 ==> d.Form == NaN && d.Negative == negative && val(d.Coeff) == 0 && d.Exponent == 0
 // ---------------------------------------------------------------- decoders: after a failed decode the receiver is still a BigInt (C16: arbitrary preceding method sequences)
 //@ func math/big.(*Int).UnmarshalText
 //@   trusted math/big (on failure the value of z is undefined: math/big can leave a zero with the sign flag of the previous value)
@@ -2333,9 +2354,8 @@ package apd
 //@   assigns *z
 //@   ensures ret == nil ==> !negzero(z)
 //@ func math/big.(*Int).GobDecode
-//@   trusted math/big (on failure the value of z is undefined)
+//@   trusted math/big (on failure the value of z is undefined; on success the sign bit of the encoding is adopted as it is, so the two-byte-less encoding {3} - sign set, empty magnitude - leaves a zero with the sign flag set)
 //@   assigns *z
-//@   ensures ret == nil ==> !negzero(z)
 //@ func (*BigInt).UnmarshalText
 //@   layer bigint
 //@   props C16 C04
@@ -2505,7 +2525,8 @@ package apd
 //@   assigns d
 //@   ensures [wf] ret == nil ==> inv(d)
 //@ func (*Decimal).MarshalText
-//@   props C04
+//@   props C04 C14
 //@   exported
 //@   nilable d
 //@   requires d != nil ==> inv(d)
+//@   ensures [text] d != nil ==> ret1 == nil && DecText(ret0, 0, d.Form, d.Negative, val(d.Coeff), d.Exponent, 71)
